@@ -66,11 +66,25 @@ func fullDecls(S *Sorts, prelude string, ifaceFns map[string]types.Type) string 
 	for _, h := range hs {
 		fmt.Fprintf(&b, "(declare-const F.%s (Array Int %s))\n", h, S.heaps[h].elem)
 	}
+	doneK := map[string]bool{}
 	for _, n := range S.mapOrder {
 		kv := S.mapConts[n]
-		fmt.Fprintf(&b, "(define-fun %s.ok ((m %s)) Bool (and (>= (%s.card m) 0) (= (= (%s.card m) 0) (= (%s.dom m) ((as const (Array %s Bool)) false)))))\n", n, n, n, n, n, kv[0])
+		k := kv[0]
+		kt := sortTag(k)
+		if !doneK[k] {
+			doneK[k] = true
+			// finite-set vocabulary for key sort k (axioms are guarded by fin so that they are consistent)
+			fmt.Fprintf(&b, "(declare-fun fin<%s> ((Array %s Bool)) Bool)\n(declare-fun setcard<%s> ((Array %s Bool)) Int)\n", kt, k, kt, k)
+			fmt.Fprintf(&b, "(define-fun empty<%s> () (Array %s Bool) ((as const (Array %s Bool)) false))\n", kt, k, k)
+			fmt.Fprintf(&b, "(assert (and (fin<%s> empty<%s>) (= (setcard<%s> empty<%s>) 0)))\n", kt, kt, kt, kt)
+			fmt.Fprintf(&b, "(assert (forall ((d (Array %s Bool))) (! (=> (fin<%s> d) (and (>= (setcard<%s> d) 0) (=> (= (setcard<%s> d) 0) (= d empty<%s>)))) :pattern ((setcard<%s> d)))))\n", k, kt, kt, kt, kt, kt)
+			fmt.Fprintf(&b, "(assert (forall ((d (Array %s Bool)) (k %s)) (! (=> (fin<%s> d) (and (fin<%s> (store d k true)) (= (setcard<%s> (store d k true)) (+ (setcard<%s> d) (ite (select d k) 0 1))))) :pattern ((store d k true)))))\n", k, k, kt, kt, kt, kt)
+			fmt.Fprintf(&b, "(assert (forall ((d (Array %s Bool)) (k %s)) (! (=> (fin<%s> d) (and (fin<%s> (store d k false)) (= (setcard<%s> (store d k false)) (- (setcard<%s> d) (ite (select d k) 1 0))))) :pattern ((store d k false)))))\n", k, k, kt, kt, kt, kt)
+			fmt.Fprintf(&b, "(assert (forall ((d (Array %s Bool)) (k %s)) (! (=> (and (fin<%s> d) (select d k)) (>= (setcard<%s> d) 1)) :pattern ((select d k) (setcard<%s> d)))))\n", k, k, kt, kt, kt)
+		}
+		fmt.Fprintf(&b, "(define-fun %s.ok ((m %s)) Bool (and (fin<%s> (%s.dom m)) (= (%s.card m) (setcard<%s> (%s.dom m)))))\n", n, n, kt, n, n, kt, n)
 		if _, ok := S.heaps[n]; ok {
-			fmt.Fprintf(&b, "(assert (and (= (%s.card (select F.%s 0)) 0) (= (%s.dom (select F.%s 0)) ((as const (Array %s Bool)) false))))\n", n, n, n, n, kv[0])
+			fmt.Fprintf(&b, "(assert (and (= (%s.card (select F.%s 0)) 0) (= (%s.dom (select F.%s 0)) empty<%s>)))\n", n, n, n, n, kt)
 		}
 	}
 	var ks []string
